@@ -433,7 +433,7 @@ func TestScenes(t *testing.T) {
 	rec := ev.Get()
 	rapid.Check(t, func(t *rapid.T) {
 		r := rapid.SampledFrom(renderers).Draw(t, "renderer")
-		S := rapid.SampledFrom([]float64{1, 10}).Draw(t, "scale")
+		S := rapid.SampledFrom([]float64{1, 10, 1, 10, 1e-7, 1e-4, 1e4}).Draw(t, "scale")
 		n := shape.Gen2(t, shape.Opts{S: S, Depth: rapid.IntRange(0, 2).Draw(t, "depth"), Grammar: shape.Lipschitz, NoBlend: true, NoPoly: true, SolidUnion2: true})
 		b, err := shape.Build(n)
 		if err != nil {
@@ -612,7 +612,7 @@ func TestStraight(t *testing.T) {
 		r := rapid.SampledFrom(renderers).Draw(t, "renderer")
 		a := g.Angle(t, "angle")
 		nx, ny := math.Cos(a), math.Sin(a)
-		S := rapid.SampledFrom([]float64{1, 10, 100}).Draw(t, "scale")
+		S := rapid.SampledFrom([]float64{1, 10, 100, 1, 10, 1e-7, 1e-4, 1e4}).Draw(t, "scale")
 		off := g.F(-0.4, 0.4).Draw(t, "offset") * S
 		cells := rapid.IntRange(4, 80).Draw(t, "cells")
 		bb := sdf.Box2{Min: v2.Vec{X: -S, Y: -S}, Max: v2.Vec{X: S, Y: S}}
@@ -624,7 +624,9 @@ func TestStraight(t *testing.T) {
 				worst = math.Max(worst, math.Abs(hp.Evaluate(p)))
 			}
 		}
-		if worst > 1e-9*S {
+		// 1.001e-12: msInterpolate (render/march2.go:199) puts an endpoint ON a lattice corner whose value is
+		// within 1e-12 (absolute) of the level; visible only for models in very small units
+		if worst > 1e-9*S+1.001e-12 {
 			rec.Violation(t, "MarchingSquares:"+r.name+":straight-boundary-endpoint-off-line", "half plane normal (%v,%v) offset %v, %d cells: an endpoint is %v from the line", nx, ny, off, cells, worst)
 		}
 		rec.Case(len(ls) > 0, ev.Key(r.name, a, off, cells, S), "straight:"+r.name)
